@@ -559,6 +559,9 @@ class Frame:
             self.ev.events.append(('iterend', st, ended, {k: self.locals.get(k) for k in sorted(bound)}, tuple(self.ev.ctx)))
         finally:
             self.ev.ctx.pop()
+        if ended == 'break':
+            # the loop is left from this very iteration: the state at the `break` is the state after the loop (and `else` is skipped)
+            return
         for k, v in list(self.locals.items()):
             if k in before and before[k] != v and not isinstance(v, Obj):
                 self.locals[k] = Opaque(f'{tag}:{k}')
